@@ -1,6 +1,6 @@
 (** C04 — Extremum, arg-extremum and median methods are exact selections. *)
 From Yata Require Import Base.Prelude Base.Num Base.NumR Core.Window Core.Candle
-  Spec.Hist Methods.Basic Methods.Select Proofs.MethodsCommon Proofs.Selection.
+  Spec.Hist Spec.IndicatorDefs Methods.Basic Methods.Select Proofs.MethodsCommon Proofs.Selection Proofs.Selection2.
 From Coq Require Import Reals.
 Open Scope Z_scope.
 
@@ -16,4 +16,31 @@ Proof. exact (highest_correct n v xs x). Qed.
 Theorem C04_highest_is_maximum n (h : nat -> R) : (0 < n)%nat ->
   (forall i, (i < n)%nat -> (h i <= highest_def n h)%R) /\ exists i, (i < n)%nat /\ h i = highest_def n h.
 Proof. exact (highest_def_is_max n h). Qed.
+
+Theorem C04_lowest n (v : R) xs x : 1 <= n <= pmax - 1 ->
+  exists s0, hl_new n v = Ok s0 /\
+    snd (lowest_step (steps lowest_step s0 xs) x) = lowest_def (Z.to_nat n) (hget v (rev (xs ++ [x]))).
+Proof. exact (lowest_correct n v xs x). Qed.
+Theorem C04_lowest_is_minimum n (h : nat -> R) : (0 < n)%nat ->
+  (forall i, (i < n)%nat -> (lowest_def n h <= h i)%R) /\ exists i, (i < n)%nat /\ h i = lowest_def n h.
+Proof. exact (lowest_def_is_min n h). Qed.
+Theorem C04_highest_lowest_delta n (v : R) xs x : 1 <= n <= pmax - 1 ->
+  exists s0, hld_new n v = Ok s0 /\
+    snd (hld_next (steps hld_next s0 xs) x) = hld_def (Z.to_nat n) (hget v (rev (xs ++ [x]))).
+Proof. exact (hld_correct n v xs x). Qed.
+(** indices: the number of steps since the NEWEST maximal / minimal element of the last n inputs *)
+Theorem C04_highest_index n (v : R) xs x : 1 <= n <= pmax - 1 ->
+  exists s0, hli_new n v = Ok s0 /\
+    snd (highest_index_step (steps highest_index_step s0 xs) x) = highest_age (Z.to_nat n) (hget v (rev (xs ++ [x]))).
+Proof. exact (highest_index_correct n v xs x). Qed.
+Theorem C04_lowest_index n (v : R) xs x : 1 <= n <= pmax - 1 ->
+  exists s0, hli_new n v = Ok s0 /\
+    snd (lowest_index_step (steps lowest_index_step s0 xs) x) = lowest_age (Z.to_nat n) (hget v (rev (xs ++ [x]))).
+Proof. exact (lowest_index_correct n v xs x). Qed.
+Theorem C04_index_is_newest_extreme (h : nat -> R) n j : (1 <= n)%nat ->
+  (argbest fgt h n = j <-> (j < n)%nat /\ (forall i, (i < j)%nat -> (h i < h j)%R) /\ (forall i, (i < n)%nat -> (h i <= h j)%R)).
+Proof. exact (upper_pivot_meaning h n j). Qed.
+Theorem C04_low_index_is_newest_extreme (h : nat -> R) n j : (1 <= n)%nat ->
+  (argbest flt h n = j <-> (j < n)%nat /\ (forall i, (i < j)%nat -> (h j < h i)%R) /\ (forall i, (i < n)%nat -> (h j <= h i)%R)).
+Proof. exact (lower_pivot_meaning h n j). Qed.
 End C04.
